@@ -38,11 +38,18 @@ RULE = ("secrets: boundary values (1, 2, 3, n-1, n-2, 2^128±1, 2^255±1) and PR
         "rejected by a length/range check alone; distinct = distinct request lines")
 CLAUSES = {
     "tagged hashes (cache transparency)": "proved (taggedHash_cache_transparent, taggedHash_invariant, tags)",
-    "signing returns exactly the BIP340 signature": "proved (signSchnorr_eq_spec) under the explicit hypothesis nonce ≠ 0",
-    "the signature verifies under the x-only key / self-check never raises": "proved (spec_verify_sign, signSchnorr_eq_spec)",
-    "verification accepts exactly when BIP340 verification accepts": "proved (verifySchnorr_eq_spec)",
-    "R not an x coordinate / R ≥ p / s ≥ n rejected": "proved (parse_sound, parse_rejects_s_ge_n, parse_rejects_r_ge_p, mkSig_rejects)",
-    "64-byte codec": "proved (parse_serialize, parse_sound)",
+    "signing returns exactly the BIP340 signature":
+        "proved (signSchnorr_eq_spec, signSchnorr_aux_default): same bytes for every secret in [1, n-1], message, aux "
+        "and cache state; both sides fail only when the nonce k' is 0",
+    "the signature verifies under the x-only key / the self-check never raises":
+        "proved (sign_verifies) under the explicit hypothesis nonce k' ≠ 0",
+    "verification accepts exactly when BIP340 verification accepts":
+        "proved (verifySchnorr_eq_spec) for all 32-byte keys, messages and 64-byte signatures",
+    "R not an x coordinate / R ≥ p / s ≥ n rejected":
+        "proved (verifySchnorr_eq_spec; parse_sound, parse_rejects_s_ge_n, parse_rejects_r_ge_p, parse_rejects_non_x, "
+        "mkSig_rejects)",
+    "lift_x": "proved (liftX_complete, liftX_sound, parseXonly_is_liftX)",
+    "64-byte codec": "proved (parse_serialize, serialize_parse, parse_sound)",
 }
 TRUSTED = ["SHA-256 is a parameter of every theorem; the driver instantiates it with Buidl.Model.Hash.SHA256 (checked "
            "against hashlib by harness/hash_selftest.py and by every tagged-hash case of this run)",
@@ -216,8 +223,9 @@ def p_cache(c):
 PREDICATES = {"sign_verify": p_sign_verify, "must_reject": p_must_reject, "bip340_vector": p_vector, "cache_transparent": p_cache}
 
 
-def eval_pred(kind_case):
-    kind, case = kind_case
+def eval_pred(kind, case=None):
+    if case is None:
+        kind, case = kind
     try:
         return PREDICATES[kind](case)
     except Exception as e:
@@ -342,13 +350,14 @@ def run(ctx):
             lines.append(("bip340k", f"bip340k {d} {xb(msg)} {a}", True))
         preds.append(("sign_verify", {"d": d, "msg": xb(msg), "aux": a}))
         # verification catalogue on a subset (≈ 10 verifications per signature)
-        if not (idx < 30 or idx % 2 == 0 or ctx.thorough):
+        if not (idx < ctx.n(30) or idx % 2 == 0):
             continue
         vsig += 1
         R, s = sig[:32], sig[32:]
         si = int.from_bytes(s, "big")
         muts = [("valid", xo, msg, sig), ("valid_sec_key", sec, msg, sig)]
-        bits = 16 if (ctx.thorough or idx < 12) else 2
+        full = idx < ctx.n(12)
+        bits = 16 if full else 2
         for b in rng.sample(range(256), bits):
             muts.append(("flip_R", xo, msg, flip(R, b) + s))
         for b in rng.sample(range(256), bits):
@@ -362,7 +371,7 @@ def run(ctx):
                    ("s=2^256-1", R + b"\xff" * 32), ("s=n-s", R + ((N - si) % N).to_bytes(32, "big")),
                    ("s+n", R + (si + N).to_bytes(32, "big") if si + N < 2**256 else R + b"\xff" * 32), ("swapped", s + R),
                    ("other_key", None)]
-        if not (ctx.thorough or idx < 12):
+        if not full:
             special = rng.sample(special, 4)
         for name, sg in special:
             if name == "other_key":
@@ -378,7 +387,7 @@ def run(ctx):
                 lines.append(("spec_verify:" + name, f"spec_verify {xb(pk_)} {xb(m_)} {xb(sg)}", True))
             if not name.startswith("valid"):
                 preds.append(("must_reject", {"pk": xb(pk_), "msg": xb(m_), "sig": xb(sg), "why": name}))
-        if idx < 20:
+        if idx < ctx.n(20):
             # outside the quantifier (not 64 bytes / not a 32-byte key): model against code only — observation O02a
             for name, pk_, sg in (("sig63", xo, sig[:63]), ("sig65", xo, sig + b"\x00"), ("sig32", xo, sig[:32]), ("sig0", xo, b""),
                                   ("key31", xo[:31], sig), ("key_uncompressed_garbage", b"\x04" + xo + xo, sig), ("key0", bytes(32), sig)):
@@ -408,9 +417,13 @@ def run(ctx):
     for (kind, line, det), model in zip(lines, answers):
         impl = impl_ans[impl_key(line)]
         trivial = kind.split(":")[-1] in ("R=p", "R=p+1", "R=2^256-1", "s=n", "s=2^256-1", "s+n", "bad_input")
-        if rec.compare(kind, {"line": line}, impl, model, determined=det, key=line[:400], nontrivial=not trivial):
-            rec.sample(kind.split(":")[0], {"request": line[:300], "answer": model[:200]})
-        rec.count(kind.split(":")[0] + (":reject" if impl == REJECT else ":accept"))
+        base = kind.split(":")[0]
+        if rec.compare(base, {"line": line}, impl, model, determined=det, key=line[:400], nontrivial=not trivial,
+                       note=kind):
+            rec.sample(base, {"request": line[:300], "answer": model[:200]})
+        if kind != base:
+            rec.count(kind)
+        rec.count(base + (":reject" if impl == REJECT else ":accept"))
     rec.count("verify_catalogue_signatures", vsig)
     pres = pmap(eval_pred, preds, workers=ctx.workers, chunksize=8)
     rec.note(f"timing: generation {t0 - ctx.t0:.1f}s, implementation {t1 - t0:.1f}s ({len(uniq)} requests), "
@@ -419,6 +432,7 @@ def run(ctx):
         if ok:
             rec.ok(kind, repr(case)[:300])
             rec.sample(kind, case, limit=1)
+            rec.cov_pred(kind, case)
         else:
             rec.violation(kind, dict(case, pred=kind), got, want, note=str(case.get("why", "")))
 
